@@ -905,6 +905,120 @@ static bool guardedCases(long n, void (*fn)(long), int timeoutMs, long chunk, st
   return true;
 }
 
+
+// ------------------------------------------------------------------ key copies that fail (failpoint in the key type)
+// FKey's copy constructor / copy assignment throw when the armed countdown reaches 0.  After a failed
+// operator[] the property still binds: a key is present only if it was inserted (here: the keys inserted
+// before, or the key of the failed call - either outcome is accepted for that one), every key is stored
+// once, and lookups of the keys inserted before still return the last value written.
+struct FKeyFail
+{
+};
+struct FKey
+{
+  int v;
+  static long arm;  // < 0: disarmed; otherwise number of copies still allowed before one throws
+  static void hit()
+  {
+    if (arm >= 0 && arm-- == 0)
+      throw FKeyFail();
+  }
+  FKey() : v(0) {}
+  explicit FKey(int x) : v(x) {}
+  FKey(const FKey &o) : v(o.v) { hit(); }
+  FKey &operator=(const FKey &o)
+  {
+    hit();
+    v = o.v;
+    return *this;
+  }
+  bool operator==(const FKey &o) const { return v == o.v; }
+  bool operator!=(const FKey &o) const { return v != o.v; }
+};
+long FKey::arm = -1;
+
+static void failingKeyCase(vh::Rng &r, long caseNo)
+{
+  FlatMap<FKey, int> fm;
+  std::vector<std::pair<int, int> > ref;  // keys are 1..12: the default key 0 is never inserted
+  std::string ops;
+  uint64_t h = vh::hash64(4242, 0);
+  int steps  = (int)r.range(2, 14);
+  long fired = 0;
+  for (int s = 0; s < steps; ++s) {
+    int key   = (int)r.range(1, 12);
+    int val   = (int)r.range(1, 1000);
+    long arm  = r.chance(1, 2) ? (long)r.below(4) : -1;
+    bool isNew = true;
+    for (size_t i = 0; i < ref.size(); ++i)
+      if (ref[i].first == key)
+        isNew = false;
+    ops += " [" + std::to_string(key) + "]=" + std::to_string(val) + (arm >= 0 ? "(key copy #" + std::to_string(arm) + " fails)" : "");
+    h = vh::hash64(h, (uint64_t)key * 5 + (uint64_t)(arm + 1));
+    FKey k(key);
+    bool threw = false;
+    FKey::arm  = arm;
+    try {
+      fm[k] = val;
+    } catch (const FKeyFail &) {
+      threw = true;
+    }
+    FKey::arm = -1;
+    if (!threw) {
+      if (isNew)
+        ref.push_back(std::make_pair(key, val));
+      else
+        for (size_t i = 0; i < ref.size(); ++i)
+          if (ref[i].first == key)
+            ref[i].second = val;
+    } else
+      ++fired;
+    // ---- judge the complete state
+    std::string desc = "#" + std::to_string(caseNo) + " FlatMap<FKey,int> ops=" + ops;
+    std::vector<int> seen;
+    bool keyOfFailedCallPresent = false;
+    for (FlatMap<FKey, int>::iterator_t it = fm.begin(); it != fm.end(); ++it) {
+      int kv = it->first.v;
+      bool inRef = false;
+      for (size_t i = 0; i < ref.size(); ++i)
+        if (ref[i].first == kv)
+          inRef = true;
+      if (!inRef && threw && kv == key) {
+        keyOfFailedCallPresent = true;  // allowed: the failed call may or may not have inserted its own key
+        inRef                  = true;
+      }
+      if (!inRef) {
+        vh::violation("C10:FlatMap:failed-insert:key-never-inserted-is-present", "after operator[] failed in a key copy the map holds key " + std::to_string(kv) + " which was never inserted (size " + std::to_string(fm.size()) + ")", desc);
+        vh::evaluated(h, fired > 0);
+        return;
+      }
+      if (std::find(seen.begin(), seen.end(), kv) != seen.end()) {
+        vh::violation("C10:FlatMap:failed-insert:key-stored-twice", "key " + std::to_string(kv) + " is stored twice", desc);
+        vh::evaluated(h, fired > 0);
+        return;
+      }
+      seen.push_back(kv);
+    }
+    size_t expSize = ref.size() + (keyOfFailedCallPresent ? 1 : 0);
+    VH_CHECK(fm.size() == expSize && seen.size() == expSize, "C10:FlatMap:failed-insert:size", "size()=" + std::to_string(fm.size()) + ", iteration yields " + std::to_string(seen.size()) + ", expected " + std::to_string(expSize), desc);
+    VH_CHECK(!fm.contains(FKey()), "C10:FlatMap:failed-insert:key-never-inserted-is-present", "contains(default key) is true although it was never inserted", desc);
+    for (size_t i = 0; i < ref.size(); ++i) {
+      FKey rk(ref[i].first);
+      bool has = fm.contains(rk);
+      VH_CHECK(has, "C10:FlatMap:failed-insert:inserted-key-lost", "key " + std::to_string(ref[i].first) + " inserted earlier is gone", desc);
+      if (has)
+        VH_CHECK(fm.at(rk) == ref[i].second, "C10:FlatMap:failed-insert:value", "at(" + std::to_string(ref[i].first) + ")=" + std::to_string(fm.at(rk)) + " expected " + std::to_string(ref[i].second), desc);
+    }
+    if (keyOfFailedCallPresent) {  // from now on it counts as inserted (value unspecified until written)
+      ref.push_back(std::make_pair(key, fm.at(FKey(key))));
+    }
+  }
+  vh::count("failing_key_copy_histories");
+  if (fired)
+    vh::count("failing_key_copies_fired", fired);
+  vh::evaluated(h, fired > 0);
+}
+
 // ------------------------------------------------------------------ main
 static void oneCase(long k)
 {
@@ -914,6 +1028,12 @@ static void oneCase(long k)
   case 1: flatMapCase<int, std::string>(r, k, 1); break;
   case 2: flatMapCase<std::string, int>(r, k, 2); break;
   case 3: flatMapCase<std::string, std::string>(r, k, 3); break;
+  case 5:
+    if ((k / 6) % 4 == 0)
+      failingKeyCase(r, k);
+    else
+      paramCase(r, k);
+    break;
   default: paramCase(r, k); break;
   }
 }
@@ -937,7 +1057,7 @@ int main(int argc, char **argv)
   long n = (long)vh::tier(60000, 1000000);
   guardedCases(n, oneCase, 20000, 250, describeCase, "histories", 25);
   vh::note("operation_families",
-           "FlatMap: operator[] insert/overwrite/read, at const/non-const (value, throw), at_index const/non-const, contains, erase "
+           "FlatMap<FKey,int>: operator[] with key copies that throw (failpoint in the key type); FlatMap: operator[] insert/overwrite/read, at const/non-const (value, throw), at_index const/non-const, contains, erase "
            "(first/middle/last/only/absent), clear, reserve, size, empty, begin/end, const begin/end, cbegin/cend, rbegin/rend, const "
            "rbegin/rend, crbegin/crend, writes through iterators, copy/assign; ParameterizedObject: setParam<int,float (incl. -0),bool,string,vec3f,user type with an id-only operator==>, "
            "getParam<those + double,unsigned,const char*>, hasParam, removeParam, resetAllParamQueryStatus, findParam(add / no add), "
